@@ -3,6 +3,7 @@
 
 use crate::exec::*;
 use crate::hist::*;
+use crate::oracle_p;
 use crate::oracle_ttl;
 use crate::plan::*;
 use std::collections::BTreeMap;
@@ -25,6 +26,25 @@ pub fn check_all(h: &Hist, out: &Outcome, props: &[&str]) -> OracleOut {
             *o.probes.entry(k.to_string()).or_default() += v;
         }
     }
+    let mut run_p = |name: &str, f: &dyn Fn() -> oracle_p::POut| {
+        if props.contains(&name) {
+            let r = f();
+            o.violations.extend(r.violations);
+            o.nontrivial |= r.nontrivial;
+            for (k, v) in r.probes {
+                *o.probes.entry(k.to_string()).or_default() += v;
+            }
+        }
+    };
+    run_p("C01", &|| oracle_p::check_c01(h));
+    run_p("C02", &|| oracle_p::check_c02(h));
+    run_p("C06", &|| oracle_p::check_c06(h));
+    run_p("C07", &|| oracle_p::check_c07(h));
+    run_p("C08", &|| oracle_p::check_c08(h));
+    run_p("C10", &|| oracle_p::check_c10(h));
+    run_p("C11", &|| oracle_p::check_c11(h));
+    run_p("C12", &|| oracle_p::check_c12(h, &out.tasks));
+    run_p("C17", &|| oracle_p::check_c17(h));
     // de-duplicate identical (prop, rule, fingerprint): keep the earliest
     o.violations.sort_by_key(|v| v.seq);
     let mut seen = std::collections::BTreeSet::new();
